@@ -41,6 +41,8 @@ const (
 	mLookup = 4 // Go monitor only
 	mAuxW   = 5 // a second kind of write (RegisterCurator), Go monitor only
 	mAuxR   = 6 // a verified read that must see it (ValidateCuratorID), Go monitor only
+	mROSet  = 7 // SetReadOnlyMode (deposed-leader probe only), Go monitor only
+	mROGet  = 8 // ReadOnlyMode, a verified read of that flag, Go monitor only
 
 	mOk    = 1
 	mDef   = 2
@@ -56,6 +58,7 @@ type mOp struct {
 	Out      int    `json:"o"`
 	R1       int64  `json:"r1"` // write: partition id; read: number of partitions; lookup: the partition asked for
 	Term     int64  `json:"t"`
+	Sub      string `json:"sub,omitempty"`      // which read entry point (element reads)
 	BadTerm  bool   `json:"bad_term,omitempty"` // the call named a term that no leader can have
 	Err      string `json:"e,omitempty"`
 	ListOK   bool   `json:"list_ok,omitempty"`
@@ -247,23 +250,36 @@ func mRunCluster(idx int) *mResult {
 		}
 		op.Ret = stamp()
 	}
-	doLookup := func(node int, r *vw.Rng) {
-		m := atomic.LoadInt64(&maxAcked)
-		if m == 0 {
-			return
-		}
+	// every verified read entry point that answers about ONE element (position p of the revealing write):
+	// answered=false: the call failed or its result says nothing either way; found: positive / negative answer
+	type elemRead struct {
+		name string
+		f    func(h *StateHandler, p int64) (answered, found bool, err core.Error)
+	}
+	elemReads := []elemRead{
+		//ELEMREADS-BEGIN
+		{"lookup", func(h *StateHandler, p int64) (bool, bool, core.Error) {
+			c, err := h.Lookup(core.PartitionID(p))
+			switch err {
+			case core.NoError:
+				return true, c == curator, core.NoError
+			case core.ErrNoSuchBlob:
+				return true, false, core.NoError // a NEGATIVE answer is an answer too
+			}
+			return false, false, err
+		}},
+		//ELEMREADS-END
+	}
+	lookupAt := func(node int, er elemRead, p int64) {
 		op := newOp(mLookup, node)
-		op.R1 = m - int64(r.Intn(3))
-		if op.R1 < 1 {
-			op.R1 = 1
-		}
+		op.R1, op.Sub = p, er.name
 		op.Inv = stamp()
-		c, err := hs[node].Lookup(core.PartitionID(op.R1))
-		switch err {
-		case core.NoError:
-			op.Out, op.Found = mOk, c == curator
-		case core.ErrNoSuchBlob:
-			op.Out, op.Found = mOk, false
+		answered, found, err := er.f(hs[node], p)
+		switch {
+		case answered:
+			op.Out, op.Found = mOk, found
+		case err == core.NoError:
+			op.Out, op.Err = mIndef, "no answer either way"
 		default:
 			op.Out, op.Err = mClassify(err)
 			if op.Out == -1 {
@@ -272,12 +288,24 @@ func mRunCluster(idx int) *mResult {
 		}
 		op.Ret = stamp()
 	}
+	doLookup := func(node int, r *vw.Rng) {
+		m := atomic.LoadInt64(&maxAcked)
+		if m == 0 {
+			return
+		}
+		p := m - int64(r.Intn(3))
+		if p < 1 {
+			p = 1
+		}
+		lookupAt(node, elemReads[r.Intn(len(elemReads))], p)
+	}
 
 	// at most 2 calls of this harness are outstanding at a node, so that an isolated leader (whose calls block for
 	// core.ProposalTimeout) does not absorb all clients and keeps receiving NEW calls while the others make progress
 	inflight := make([]int32, n)
 	var auxMu sync.Mutex
 	var auxTokens []int64
+	var lastAuxTok int64
 	auxWrite := func(h *StateHandler, term uint64) (int64, core.Error) {
 		c, err := h.RegisterCurator(term)
 		return int64(c), err
@@ -308,7 +336,20 @@ func mRunCluster(idx int) *mResult {
 			auxMu.Lock()
 			auxTokens = append(auxTokens, tok)
 			auxMu.Unlock()
+			atomic.StoreInt64(&lastAuxTok, tok)
 		}
+	}
+	auxReadAt := func(node int, tok int64) {
+		op := newOp(mAuxR, node)
+		op.R1 = tok
+		op.Inv = stamp()
+		found, err := auxRead(hs[node], tok)
+		op.Out, op.Err = mClassify(err)
+		if op.Out == -1 {
+			op.Out = mIndef
+		}
+		op.Found = found
+		op.Ret = stamp()
 	}
 	doAuxR := func(node int, r *vw.Rng) {
 		auxMu.Lock()
@@ -414,10 +455,129 @@ func mRunCluster(idx int) *mResult {
 	cl.Quiet()
 	cw.Wait() // handler calls return after at most core.ProposalTimeout
 
+	// ---- deposed-leader probe (short cases): cut the leader (and, with 5 members, one follower) off, let the rest
+	// elect a new leader, have one command of every kind acknowledged there, then ask EVERY verified read entry
+	// point on every member: an answer returned with a nil error must reflect those commands.
+	roStuck := false
+	if !long {
+		func() {
+			wait := func(cond func() bool, d time.Duration) bool {
+				end := time.Now().Add(d)
+				for !cond() && time.Now().Before(end) {
+					time.Sleep(time.Millisecond)
+				}
+				return cond()
+			}
+			if !wait(func() bool { return len(leaders()) > 0 }, 3*time.Second) {
+				res.Stats["m_probe_skipped_no_leader"]++
+				return
+			}
+			a := leaders()[0]
+			cut := map[int]bool{a: true}
+			if n >= 5 {
+				cut[(a+1)%n] = true
+			}
+			for i := range cut {
+				isolate(i)
+			}
+			newLeader := func() int {
+				for _, l := range leaders() {
+					if !cut[l] {
+						return l
+					}
+				}
+				return -1
+			}
+			if !wait(func() bool { return newLeader() >= 0 }, 5*time.Second) {
+				res.Stats["m_probe_skipped_no_new_leader"]++
+				cl.HealAll(0)
+				return
+			}
+			var w *mOp
+			end := time.Now().Add(5 * time.Second)
+			for w == nil && time.Now().Before(end) {
+				if b := newLeader(); b >= 0 {
+					if op := doWrite(b, vw.NewRng(11)); op.Out == mOk && !op.BadTerm {
+						w = op
+					}
+				}
+			}
+			tokBefore := atomic.LoadInt64(&lastAuxTok)
+			for try := 0; try < 50 && atomic.LoadInt64(&lastAuxTok) == tokBefore; try++ {
+				if b := newLeader(); b >= 0 {
+					doAuxW(b)
+				}
+			}
+			roSet := func(v bool) *mOp {
+				for try := 0; try < 200; try++ {
+					b := newLeader()
+					if b < 0 {
+						time.Sleep(5 * time.Millisecond)
+						continue
+					}
+					op := newOp(mROSet, b)
+					if v {
+						op.R1 = 1
+					}
+					op.Inv = stamp()
+					op.Out, op.Err = mClassify(hs[b].SetReadOnlyMode(v))
+					if op.Out == -1 {
+						op.Out = mIndef
+					}
+					op.Ret = stamp()
+					if op.Out == mOk {
+						return op
+					}
+				}
+				return nil
+			}
+			ro := roSet(true)
+			var pw sync.WaitGroup
+			for node := 0; node < n; node++ {
+				if w != nil {
+					for _, er := range elemReads {
+						pw.Add(1)
+						go func(node int, er elemRead) { defer pw.Done(); lookupAt(node, er, w.R1) }(node, er)
+					}
+					pw.Add(1)
+					go func(node int) { defer pw.Done(); doRead(node) }(node)
+				}
+				if tok := atomic.LoadInt64(&lastAuxTok); tok != tokBefore {
+					pw.Add(1)
+					go func(node int) { defer pw.Done(); auxReadAt(node, tok) }(node)
+				}
+				if ro != nil {
+					pw.Add(1)
+					go func(node int) {
+						defer pw.Done()
+						op := newOp(mROGet, node)
+						op.Inv = stamp()
+						v, err := hs[node].ReadOnlyMode()
+						op.Out, op.Err = mClassify(err)
+						if op.Out == -1 {
+							op.Out = mIndef
+						}
+						op.Found = v
+						op.Ret = stamp()
+					}(node)
+				}
+			}
+			pw.Wait()
+			if ro != nil {
+				if roSet(false) == nil {
+					res.Stats["m_probe_readonly_not_cleared"]++
+					roStuck = true
+				}
+			}
+			res.Stats["m_probes"]++
+			cl.HealAll(0)
+		}()
+	}
+
 	// barrier + convergence
 	var barrier *mOp
 	deadline := time.Now().Add(30 * time.Second)
-	for barrier == nil && time.Now().Before(deadline) {
+	for barrier == nil && !roStuck && time.Now().Before(deadline) {
 		ls := leaders()
 		if len(ls) == 0 {
 			time.Sleep(5 * time.Millisecond)
@@ -546,7 +706,7 @@ func mRunCluster(idx int) *mResult {
 					map[string]interface{}{"read": r, "missed": w})
 			}
 			if r.Kind == mLookup && w.R1 == r.R1 && !r.Found {
-				report("handler/stale-verified-read/lookup", "Lookup does not find a partition acknowledged before it was called",
+				report("handler/stale-verified-read/"+r.Sub, "a verified element read answered (nil error) that an element does not exist although its creation was acknowledged before the read was requested",
 					map[string]interface{}{"read": r, "missed": w})
 			}
 		}
@@ -562,10 +722,22 @@ func mRunCluster(idx int) *mResult {
 			}
 		}
 	}
-	kinds := map[int]string{mWrite: "newpartition", mRead: "getpartitions", mLookup: "lookup", mAuxW: "registercurator", mAuxR: "validatecuratorid"}
+	// the read-only flag: set once (probe), cleared only after all probe reads returned
+	for _, r := range ops {
+		if r.Kind != mROGet || r.Out != mOk || r.Found {
+			continue
+		}
+		for _, w := range ops {
+			if w.Kind == mROSet && w.Out == mOk && w.R1 == 1 && w.Ret < r.Inv {
+				report("handler/stale-verified-read/readonlymode", "ReadOnlyMode answered false (nil error) although SetReadOnlyMode(true) was acknowledged before it was called",
+					map[string]interface{}{"read": r, "missed": w})
+			}
+		}
+	}
+	kinds := map[int]string{mROSet: "setreadonlymode", mROGet: "readonlymode", mWrite: "newpartition", mRead: "getpartitions", mLookup: "elem_", mAuxW: "registercurator", mAuxR: "validatecuratorid"}
 	outs := map[int]string{1: "ok", 2: "definite_err", 3: "indefinite"}
 	for _, op := range ops {
-		res.Stats["m_"+kinds[op.Kind]+"_"+outs[op.Out]]++
+		res.Stats["m_"+kinds[op.Kind]+op.Sub+"_"+outs[op.Out]]++
 		if op.Err != "" {
 			res.Stats["m_err_"+strings.ReplaceAll(op.Err, " ", "_")]++
 		}
